@@ -273,6 +273,42 @@ fn main() {
                 emit(n, &prog, &ex, &q, &mut out);
             }
         }
+        // weak-memory correspondence: seeded random programs / schedules with C11-permitted STALE values
+        // of write_cell injected into the readers' loads and failed compare-exchanges
+        "ras" => {
+            install();
+            let count: u64 = a[2].parse().unwrap();
+            let shard: u64 = a[3].parse().unwrap(); let nsh: u64 = a[4].parse().unwrap(); let seed: u64 = a[5].parse().unwrap();
+            let percent: u64 = a.get(6).map(|s| s.parse().unwrap()).unwrap_or(40);
+            for i in 0..count {
+                if i % nsh != shard { continue; }
+                let mut rng = Rng(seed ^ i.wrapping_mul(0x2545F4914F6CDD1D) ^ 0x5157);
+                let n = SIZES[rng.below(6) as usize];
+                let nw = 3 + rng.below(6) as usize;
+                let mut w = vec![Op::Acq];
+                for k in 0..nw {
+                    let b = (10 + k) as u8;
+                    match rng.below(7) { 0 | 1 | 2 => w.push(Op::St(b)), 3 | 4 | 5 => w.push(Op::Ln(b)), _ => w.push(Op::Dc(b)) }
+                }
+                let nr = 1 + rng.below(2) as usize;
+                let mut prog = vec![w];
+                for _ in 0..nr {
+                    let mut r = Vec::new();
+                    for _ in 0..(2 + rng.below(4)) { r.push(Op::Ld); }
+                    prog.push(r);
+                }
+                let q = make(n);
+                sched::stale_enable(rng.next(), percent, &["unrestricted_atomic.rs"]);
+                let ex = run_random(rng.next(), bodies(&q, &prog));
+                let inj = sched::stale_disable();
+                let _ = writeln!(out, "C ra {} {}", n, prog_str(&prog));
+                print_exec(&ex, &mut out);
+                let schedv: Vec<String> = ex.choices.iter().map(|c| c.to_string()).collect();
+                let _ = writeln!(out, "S {} inj={}", schedv.join(","), inj);
+                let (w, c) = final_obs(&q);
+                let _ = writeln!(out, "F {},{}", w, c);
+            }
+        }
         "one" => {
             install();
             let n: usize = a[2].parse().unwrap();
